@@ -568,8 +568,12 @@ def stateGate (v : VSock) (hdr : Header) : Gate :=
     | .established =>
       if isFin then
         if hdr.seqNr ≠ wadd v.lastConsumedRemoteSeqNr 1 then .dropPacket v
-        else .proceed { v with state := .lastAck v.seqNr hdr.seqNr, seqNr := wadd v.seqNr 1,
-                               segs := v.segs.discardUnsent }   -- nothing new is sent once the remote closed (D22)
+        else
+          -- nothing new is sent once the remote closed (D22); the FIN takes the number after the last segment that
+          -- stays queued - `seq_nr` may be further ahead after a sent MTU probe was popped (D24)
+          let segs := v.segs.discardUnsent
+          let fin := wadd segs.sndUna (segs.segs.length % 65536)
+          .proceed { v with state := .lastAck fin hdr.seqNr, seqNr := wadd fin 1, segs := segs }
       else .proceed v
     | .finWait1 ourFin =>
       if isFin then
